@@ -113,6 +113,7 @@ def run(case):
         ]
         obs['all_completed'] = all(r['fut'].done() for r in awaited) and len(awaited) >= len(awaits)
         obs['entries'] = [e for e in w.trace.get(1, []) if e['k'] == 'enter']
+        obs['to_context_keys'] = list(w.extra.get('to_context_keys', {}).get(1, []))
         obs['views'] = ex.views()
         obs['set_excs'] = set_excs
         obs['escapes'] = [(c['message'][:70], c['exc_type'], c['exc_str']) for c in ex.loop.escapes()]
@@ -143,6 +144,10 @@ def judge(case, obs, v):
     for esc in obs['escapes']:
         v('loop-exception', str(esc)[:200])
         break
+    registered = {r['key'] for r in obs['awaited']}
+    bypassed = sorted(k for k in registered if k not in obs.get('to_context_keys', []))
+    if bypassed:
+        v('to-context-bypassed', f'awaitables {bypassed} were registered without going through the (overridable) to_context() method')
     if not obs['all_completed']:
         return 'incomplete'
     first_failure = obs['first_failure']
@@ -202,7 +207,7 @@ def _awaits(n, kinds, outcomes):
 
 def enumerate_barrier(nmax):
     """C10: all completion orders, kinds and outcome mixes for n <= nmax."""
-    outs = [['value', 1], ['exc', 'e'], ['kill', 'kt']]
+    outs = [['value', 1], ['exc', 'e'], ['kill', 'kt'], ['exc', 'falsy']]
     for n in range(1, nmax + 1):
         for kinds in itertools.product(KINDS_HOW, repeat=n):
             if n == 3 and len(set(kinds)) == 1 and kinds[0][0] == 'child':
@@ -272,7 +277,7 @@ def strategy_cases(draw, with_pause, failing):
         else:
             choices = [['value', draw(st.integers(0, 3))]] * 3
             if failing:
-                choices = choices + [['exc', 'e%d' % i]] + ([['kill', 'kt']] if kind == 'child' else [])
+                choices = choices + [['exc', 'e%d' % i], ['exc', 'falsy']] + ([['kill', 'kt']] if kind == 'child' else [])
             outcome = draw(st.sampled_from(choices))
         aws.append({'key': f'k{i}', 'how': how, 'kind': kind, 'outcome': list(outcome)})
     todo = [i for i in range(n) if aws[i]['kind'] != 'done']
@@ -300,7 +305,7 @@ def enumerate_failing(nmax=2):
     """C06/C10 x pause: a failing item and a succeeding one complete around a pause/play in every order (gaps 0/1)."""
     n = 2
     for kinds in itertools.product([('fut', 'ret'), ('child', 'toctx')], repeat=n):
-        for outcomes in ([['exc', 'e'], ['value', 1]], [['value', 1], ['exc', 'e']], [['exc', 'e1'], ['exc', 'e2']], [['kill', 'kt'], ['value', 2]]):
+        for outcomes in ([['exc', 'e'], ['value', 1]], [['value', 1], ['exc', 'e']], [['exc', 'e1'], ['exc', 'e2']], [['kill', 'kt'], ['value', 2]], [['exc', 'falsy'], ['value', 1]]):
             if any(o[0] == 'kill' and k[0] != 'child' for o, k in zip(outcomes, kinds)):
                 continue
             events = [['complete', 0], ['complete', 1], ['pause', 'p'], ['play']]
